@@ -741,6 +741,37 @@ def main(tier, seed, replay=None):
             camp.case(sc, nontrivial=True, classes=["directed"] + list(classes_))
             for b, d in fails_:
                 camp.fail(b, sc, d)
+    # directed: one state name used in two scopes of the same machine (sibling Branches, the ItemProcessors of two Maps, parent and child, cousins two levels down).  The engine
+    # refuses a transition to such a name ("non-unique state ... Illegal State Machine"), so the validator has to report it: accepted => runs.
+    def _task(name, **kw):
+        return {name: dict({"Type": "Task", "Resource": FN}, **kw)}
+
+    def _par(*branches, **kw):
+        return dict({"Type": "Parallel", "Branches": [{"StartAt": list(b)[0], "States": b} for b in branches]}, **kw)
+
+    def _map(states, **kw):
+        return dict({"Type": "Map", "ItemsPath": "$.items", "ItemProcessor": {"StartAt": list(states)[0], "States": states}}, **kw)
+    dup_defs = {
+        "sibling-branches": {"StartAt": "P", "States": {"P": _par(_task("Work", End=True), _task("Work", End=True), End=True)}},
+        "sibling-branches-second-state": {"StartAt": "P", "States": {"P": _par(dict(_task("A1", Next="Work"), **_task("Work", End=True)), dict(_task("B1", Next="Work"), **_task("Work", End=True)), End=True)}},
+        "two-maps": {"StartAt": "M1", "States": {"M1": _map(_task("Work", End=True), ResultPath="$.m1", Next="M2"), "M2": _map(_task("Work", End=True), ResultPath="$.m2", End=True)}},
+        "map-and-branch": {"StartAt": "M1", "States": {"M1": _map(_task("Work", End=True), ResultPath="$.m1", Next="P"), "P": _par(_task("Work", End=True), _task("Other", End=True), End=True)}},
+        "parent-and-child": {"StartAt": "Work", "States": {"Work": _par(_task("Work", End=True), _task("Other", End=True), End=True)}},
+        "top-level-and-branch": {"StartAt": "P", "States": dict({"P": _par(_task("Work", End=True), _task("Other", End=True), Next="Work")}, **_task("Work", End=True))},
+        "cousins": {"StartAt": "P", "States": {"P": _par({"Q1": _par(_task("Work", End=True), _task("X1", End=True), End=True)}, {"Q2": _par(_task("Work", End=True), _task("X2", End=True), End=True)}, End=True)}},
+        "uncle-and-nephew": {"StartAt": "P", "States": {"P": _par({"Q1": _par(_task("Work", End=True), _task("X1", End=True), End=True)}, _task("Work", End=True), End=True)}},
+        "control:unique-names": {"StartAt": "P", "States": {"P": _par(_task("Work1", End=True), _task("Work2", End=True), End=True)}},
+    }
+    for label_, d_ in dup_defs.items():
+        sc = {"family": "M", "value": d_, "labels": ["directed-duplicate-state-name:" + label_]}
+        try:
+            fails_, classes_, _nt = run_scenario(sc)
+        except Exception as e:
+            camp.harness_error("directed duplicate-name definition crashed the harness: %r" % (e,))
+            continue
+        camp.case(sc, nontrivial=True, classes=["directed", "directed-duplicate-state-name"] + list(classes_))
+        for b, d in fails_:
+            camp.fail(b, sc, d)
     from .. import fuzz
     if tier == "thorough":
         run_shards(camp, __name__, "shard", 16, examples=2500)
